@@ -102,7 +102,7 @@ class URI(object):
     @property
     def location(self):
         """property containing the location string, for instance ``"servername.you.com:5555"``"""
-        if self.host:
+        if self.host is not None:
             if ":" in self.host:  # ipv6
                 return "[%s]:%d" % (self.host, self.port)
             else:
